@@ -15,6 +15,7 @@ import Noodles.Trunc.DriverC13More
 import Noodles.Bam.DriverC05
 import Noodles.Bam.DriverC05Reenc
 import Noodles.Bgzf.DriverC14
+import Noodles.Io.DriverC14More
 import Noodles.Vcf.DriverC09
 import Noodles.Vcf.DriverC09Header
 import Noodles.Sam.DriverC06
@@ -43,7 +44,7 @@ def dispatch (line : String) : String :=
   | "c13" :: rest => (Trunc.More.handle? rest).getD (Trunc.handleC13 rest)
   | "c05" :: "re" :: rest => Bam.DriverReenc.handle rest
   | "c05" :: rest => Bam.Driver.handle rest
-  | "c14" :: rest => Bgzf.SM.handleC14 rest
+  | "c14" :: rest => (WP.Driver.handle? rest).getD (Bgzf.SM.handleC14 rest)
   | "c09" :: rest => (Vcf.DriverHeader.handle? rest).getD (Vcf.Driver.handle rest)
   | "c06" :: rest => Sam.Drv.handleC06 rest
   | "c20" :: rest => (Util.DriverMore.handle? rest).getD (Util.handleC20 rest)
